@@ -9,6 +9,7 @@ TV  : per (channel, probability, alphabet, dtype, shape): 10^6 symbols are pushe
 import random
 
 import torch
+from .core import sint
 
 from . import tlc, tv
 
@@ -31,7 +32,7 @@ def table_event(ch_name, mk, p1000, alphabet, dtype, shape, er, seed, N):
     before = x.clone()
     torch.manual_seed(seed + 1)
     ch = mk()
-    ev = {"ev": "Table", "channel": ch_name, "alphabet": alphabet, "pn": p1000, "D": 1000, "er2": int(round(er * 2)), "cells": [], "input_unchanged": True, "shape_ok": True,
+    ev = {"ev": "Table", "channel": ch_name, "alphabet": alphabet, "pn": p1000, "D": 1000, "er2": sint(er * 2), "cells": [], "input_unchanged": True, "shape_ok": True,
           "N": numel, "pairs": -1, "npairs": 0, "raised": False}
     y = ch(x)
     ev["input_unchanged"] = bool(torch.equal(before, x))
@@ -63,6 +64,17 @@ def table_event(ch_name, mk, p1000, alphabet, dtype, shape, er, seed, N):
     else:
         ev["npairs"] = numel - 1
         ev["pairs"] = int((evt[:-1] & evt[1:]).sum())
+    # joint count of the same position in consecutive batch items (a noise pattern reused across items shows here, not at lag 1)
+    ev["ipairs"], ev["inpairs"] = -1, 0
+    if len(shape) >= 2 and shape[0] >= 2:
+        lag = numel // shape[0]
+        if ch_name == "z":
+            both = elig[:-lag] & elig[lag:]
+            ev["inpairs"] = int(both.sum())
+            ev["ipairs"] = int((evt[:-lag] & evt[lag:] & both).sum())
+        else:
+            ev["inpairs"] = numel - lag
+            ev["ipairs"] = int((evt[:-lag] & evt[lag:]).sum())
     return ev
 
 
@@ -78,7 +90,7 @@ def run(run):
     from kaira.channels import BinaryErasureChannel, BinarySymmetricChannel, BinaryZChannel
     N = 1000000
     probs = [0, 1, 10, 100, 300, 500, 900, 999, 1000]
-    shapes = [(N,), (1000, 1000), (10, 10, 100, 100)]
+    shapes = [(N,), (1000, 1000), (10, 10, 100, 100), (1, N)]
     evs, meta = [], []
     tid = 0
     for ch_name, cls in (("bsc", BinarySymmetricChannel), ("z", BinaryZChannel), ("bec", BinaryErasureChannel)):
@@ -105,6 +117,25 @@ def run(run):
                         evs.append(e)
                         meta.append((cls.__name__, cfg))
                         run.case(tuple(sorted(cfg.items())), nontrivial=True)
+    # half-precision inputs: the noise must still be drawn and compared at full resolution (a coarse grid shifts small and near-one probabilities)
+    for ch_name, cls in (("bsc", BinarySymmetricChannel), ("z", BinaryZChannel), ("bec", BinaryErasureChannel)):
+        for dt in (torch.float16, torch.bfloat16):
+            for pi, p in enumerate((1, 10, 300, 999)):
+                alphabet = "binary" if (pi + (dt == torch.float16)) % 2 == 0 else "bipolar"
+                er = -1.0 if alphabet == "binary" else 0.0
+                shape = shapes[pi % len(shapes)]
+                cfg = {"channel": ch_name, "p": p / 1000.0, "alphabet": alphabet, "dtype": str(dt).replace("torch.", ""), "ndim": len(shape), "erasure_symbol": er}
+                mk = (lambda cls=cls, p=p, er=er: cls(p / 1000.0) if cls is not BinaryErasureChannel else cls(p / 1000.0, erasure_symbol=er))
+                tid += 1
+                try:
+                    e = table_event(ch_name, mk, p, alphabet, dt, shape, er, run.seed * 1000 + tid, N)
+                except Exception as ex:
+                    run.violate(cls.__name__, "channel_raised", cfg, {"error": repr(ex)[:200]})
+                    continue
+                e["tid"] = tid
+                evs.append(e)
+                meta.append((cls.__name__, cfg))
+                run.case(tuple(sorted(cfg.items())), nontrivial=True)
     run.log("%d configurations x %d symbols" % (len(evs), N))
     mism = tv.validate(run, "Trace_Channels", evs, name="TV C12", timeout=1800)
     seen = set()
